@@ -23,9 +23,10 @@
      (C08_threshold_transfer_f32_refuted_negzero).  Not proved: the main clause for binary32
      under the conditioning predicate [well_conditioned] (checked on every run by the
      correspondence harness instead). *)
-From Coq Require Import List ZArith QArith Bool Arith Lia.
+From Coq Require Import List ZArith QArith Bool Arith Lia Reals Lra.
+From Flocq Require Import Core BinarySingleNaN.
 From LMBase Require Import Res ListX IEEE.
-From LMDisc Require Import DiscModel DiscImplCheck DiscProofs DiscKernels DiscIEEE DiscImplProofs DiscF32Mono.
+From LMDisc Require Import DiscModel DiscImplCheck DiscProofs DiscKernels DiscIEEE DiscImplProofs DiscF32Mono DiscF32Main.
 Import ListNotations.
 
 (* (1) exact arithmetic: byte score of a window >= byte image of its real score *)
@@ -212,6 +213,36 @@ Theorem C08_threshold_transfer_f32_refuted_negzero :
     (sr <= b)%Z /\ (b < st)%Z.
 Proof. exact transfer_f32_refuted_negzero. Qed.
 
+(* (5) binary32, main clause, PARTIAL.  Full statement (not proved): for every matrix with finite
+   non-wildcard cells that satisfies [well_conditioned], every window: scale f32_ops d real <= b.
+   Proved: the clause under the predicate [sum_error_small] on the two sums -- the computed
+   real (-) offset is NaN or -inf, or it is finite, the computed per-cell differences x_i (-) o_i
+   are finite and   real (-) offset <= sum_i (x_i (-) o_i) + factor / 4   over the reals --
+   for a finite positive factor and at most 16384 rows.  Missing: the rounding-error analysis of
+   the two left-to-right sums that derives [sum_error_small] from [well_conditioned]
+   (ill-conditioned matrices violate it: C08_ieee_refuted). *)
+Theorem C08_f32_main_partial :
+  forall (K : nat) (m : list (list F32.t)) (d : @dmat F32.t)
+         (w : list nat) (xs : list F32.t) (real : F32.t) (b : Z),
+    to_discrete f32_ops K m = Ok d ->
+    pick m w = Some xs ->                               (* the cells of the window *)
+    real_wscore f32_ops m w = Ok real ->
+    disc_wscore (d_data d) w = Ok b ->
+    @is_finite 24 128 (d_factor d) = true -> (0 < @B2R 24 128 (d_factor d))%R ->
+    (Z.of_nat (length m) <= 16384)%Z ->
+    sum_error_small (d_factor d) (F32.sub real (d_offset d)) (combine xs (d_offsets d)) ->
+    (scale f32_ops d real <= b)%Z.
+Proof. exact f32_main_partial_model. Qed.
+
+(* the same for any factor / offset / list of (cell, row offset) pairs *)
+Theorem C08_f32_window_partial :
+  forall (f offset real : F32.t) (ps : list (F32.t * F32.t)),
+    @is_finite 24 128 f = true -> (0 < @B2R 24 128 f)%R -> (Z.of_nat (length ps) <= 16384)%Z ->
+    sum_error_small f (F32.sub real offset) ps ->
+    (scale_with f32_ops f offset real
+     <= satsum (map (fun p => disc_cell f32_ops f (snd p) (fst p)) ps))%Z.
+Proof. exact f32_main_partial. Qed.
+
 Check C08_discrete_overestimates :
   forall (K : nat) (m : list (list xq)) (d : @dmat xq) (w : list nat) (real : xq) (b : Z),
     Forall (fun row => Forall xq_finite (nonwild K row)) m ->
@@ -252,3 +283,27 @@ Example ex_impl_check_rejects_wrap :
   /\ check_C08_impl f32_ops [(F32.of_bits 3212836864, 0%Z)] [(0%Z, F32.of_bits 0, 0%Z)] = true
   /\ first_bad_impl f32_ops 0 [] [(0%Z, F32.of_bits 3212836864, 253%Z)] = Some (FailPos 0).
 Proof. vm_compute. repeat split; reflexivity. Qed.
+
+(* [sum_error_small] is satisfiable in its non-trivial form (finite total, finite differences,
+   error bound): factor 1/255 (0x3B808081), one cell 1.0 with row offset 0.0, score 1.0, offset 0.0;
+   the cell is 255 and the image of the score 254 (the rounded factor is slightly above 1/255) *)
+Definition ex_factor : F32.t := @B754_finite 24 128 false 8421505 (-31) eq_refl.
+Definition ex_one : F32.t := @B754_finite 24 128 false 8388608 (-23) eq_refl.
+
+Example ex_sum_error_small :
+  @is_finite 24 128 ex_factor = true /\ (0 < @B2R 24 128 ex_factor)%R /\
+  F32.to_bits ex_factor = 998277249%Z /\
+  (@is_finite 24 128 (F32.sub ex_one F32.zero) = true /\
+   Forall (fun p => @is_finite 24 128 (F32.sub (fst p) (snd p)) = true) [(ex_one, F32.zero)] /\
+   (@B2R 24 128 (F32.sub ex_one F32.zero)
+    <= rsumd (map (fun p => F32.sub (fst p) (snd p)) [(ex_one, F32.zero)]) + @B2R 24 128 ex_factor / 4)%R) /\
+  scale_with f32_ops ex_factor F32.zero ex_one = 254%Z /\
+  satsum (map (fun p => disc_cell f32_ops ex_factor (snd p) (fst p)) [(ex_one, F32.zero)]) = 255%Z.
+Proof.
+  assert (Hpos : (0 < @B2R 24 128 ex_factor)%R) by (apply F2R_gt_0; cbn; lia).
+  split; [reflexivity|]. split; [exact Hpos|]. split; [vm_compute; reflexivity|].
+  split; [|split; vm_compute; reflexivity].
+  split; [vm_compute; reflexivity|]. split; [repeat constructor|].
+  cbn [rsumd map fold_right fst snd]. set (D := @B2R 24 128 (F32.sub ex_one F32.zero)).
+  lra.
+Qed.
